@@ -158,7 +158,8 @@ def optional_by_none(ctx):
                 n += 1
                 rep.ok("C24.R8", C, f"`{norm_src(w)}`: optional `{w.left.id}` tested against None")
     if n < 1:
-        raise AnalysisError(f"{SYS}: no test of an optional numeric argument found")
+        # nothing to judge (e.g. the optional time is ignored altogether - which C24.R3 reports); the rule's floor notes the absence
+        rep.ok("C24.R8", f"{SYS}:System", "no test of an optional numeric argument found (no verdict)", verdict="unknown", trivial=True)
 
 
 def run(ctx):
@@ -175,7 +176,7 @@ def run(ctx):
     restart_tolerance(ctx)
     rep.rule("C24.R8", "optional numeric arguments of System (the restart time t0) are recognised by `is None`, not by truthiness", 1)
     optional_by_none(ctx)
-    rep.rule("C24.R7", "force-law data defaulted from the initial state (l_ref, ...) is resolved once: the guard tests the attribute that is assigned", 3)
+    rep.rule("C24.R7", "force-law data defaulted from the initial state (l_ref, ...) is resolved once: the guard tests the attribute that is assigned", 2)
     default_resolution(ctx)
     rep.rule("C24.R5", "registration markers (nq, nu, nla_*) are constructor data", 12)
     model = ctx.model
